@@ -420,3 +420,107 @@ class ImplViews(ImplEq):
             i += k + 1
         self.last_rebuilt = None
         return self._from_seqs(seqs)
+
+
+# ----------------------------------------------------------------------------------- feature observers (C11, C12)
+from job_shop_lib.dispatching import feature_observers as _fo  # noqa: E402
+
+FKINDS = {
+    "is_ready": _fo.IsReadyObserver,
+    "earliest_start_time": _fo.EarliestStartTimeObserver,
+    "duration": _fo.DurationObserver,
+    "is_scheduled": _fo.IsScheduledObserver,
+    "position_in_job": _fo.PositionInJobObserver,
+    "remaining_operations": _fo.RemainingOperationsObserver,
+    "is_completed": _fo.IsCompletedObserver,
+    "composite": _fo.CompositeFeatureObserver,
+    "unscheduled": jsl.UnscheduledOperationsObserver,
+    "history": jsl.HistoryObserver,
+    "makespan_reward": MakespanReward,
+    "idle_reward": IdleTimeReward,
+}
+FT = {"o": _fo.FeatureType.OPERATIONS, "m": _fo.FeatureType.MACHINES, "j": _fo.FeatureType.JOBS}
+FT_NAME = {v: k for k, v in FT.items()}
+
+
+def _kind_name(obs):
+    for name, cls in FKINDS.items():
+        if type(obs) is cls:
+            return name
+    return type(obs).__name__
+
+
+def fmt_val(v):
+    import math
+    if isinstance(v, float) and math.isnan(v):
+        return "nan"
+    if float(v) != int(v):
+        return repr(float(v))
+    return str(int(v))
+
+
+class ImplFeat(ImplViews):
+    def _new_dispatcher(self):
+        super()._new_dispatcher()
+        self.fheap = []
+
+    def _sync_heap(self):
+        """Registers observers that appeared in dispatcher.subscribers (helpers are created lazily)."""
+        for s in self.dispatcher.subscribers:
+            if not any(o is s for o in self.fheap):
+                self.fheap.append(s)
+
+    def _fid(self, obs):
+        return next(i for i, o in enumerate(self.fheap) if o is obs)
+
+    def cmd_fobs(self, ts):
+        kind, fts = ts[0], ts[1]
+        cls = FKINDS[kind]
+        kwargs = {}
+        if fts != "-" and issubclass(cls, _fo.FeatureObserver):
+            kwargs["feature_types"] = [FT[c] for c in fts]
+        n_before = len(self.dispatcher.subscribers)
+        try:
+            obs = cls(self.dispatcher, **kwargs)
+        except Exception:  # pylint: disable=broad-except
+            if len(self.dispatcher.subscribers) != n_before:
+                return "raise-after-subscribe"
+            return "raise"
+        # the new observer subscribed itself first; helpers follow
+        self._sync_heap()
+        return str(self._fid(obs))
+
+    def cmd_fcomp(self, ts):
+        try:
+            if ts == ["all"]:
+                obs = _fo.CompositeFeatureObserver(self.dispatcher)
+            else:
+                obs = _fo.CompositeFeatureObserver(self.dispatcher, feature_observers=[self.fheap[int(t)] for t in ts])
+        except Exception:  # pylint: disable=broad-except
+            return "raise"
+        self._sync_heap()
+        return str(self._fid(obs))
+
+    def fmt_fobs(self, i):
+        o = self.fheap[i]
+        kind = _kind_name(o)
+        if kind == "unscheduled":
+            return f"{i}:unscheduled " + " ".join(lst(op.operation_id for op in dq) for dq in o.unscheduled_operations_per_job)
+        if kind == "history":
+            return f"{i}:history " + " ".join(fmt_sop(x) for x in o.history)
+        if kind == "makespan_reward":
+            return f"{i}:makespan_reward {' '.join(str(int(r)) for r in o.rewards)} cur {o.current_makespan}"
+        if kind == "idle_reward":
+            return f"{i}:idle_reward {' '.join(str(int(r)) for r in o.rewards)}"
+        cols = " ".join(
+            FT_NAME[ft] + "=" + ";".join(",".join(fmt_val(v) for v in arr[:, c]) for c in range(arr.shape[1]))
+            for ft, arr in o.features.items())
+        if kind == "composite":
+            parts = " ".join(str(self._fid(p)) for p in o.feature_observers)
+            return f"{i}:composite({parts}) {cols}"
+        return f"{i}:{kind} {cols}"
+
+    def cmd_fsnap(self, ts):
+        self._sync_heap()
+        ids = [str(self._fid(s)) for s in self.dispatcher.subscribers]
+        return f"subs {' '.join(ids)} || " + " || ".join(self.fmt_fobs(i) for i in range(len(self.fheap)))
